@@ -455,6 +455,7 @@ func runC10(env *Env) {
 	boundaryStaleEvents(env, rep, "C10-flows", 8)
 	threeTokensOneTask(env, rep, "C10-flows", 4)
 	boundaryReentryAfterInterruption(env, rep, "C10-flows", 4)
+	boundaryTwoHosts(env, rep, "C10-flows", 6)
 	env.WriteCases(rep, "", "Corr.C10corr", "list (nat * nat) * list nat * nat * list nat * nat", items, "c10_mismatches")
 	env.WriteReport(rep)
 }
@@ -676,5 +677,113 @@ func boundaryReentryAfterInterruption(env *Env, rep *Report, key string, rounds 
 			rep.Violate(key, cs, problem+"; log: "+logString(in.Log()))
 		}
 		in.Close()
+	}
+}
+
+// boundaryTwoHosts: two tasks in sequence (A then B), each with its own boundary event, in either declaration order, and
+// two instances in a row from one parsed document. Every boundary event belongs to its own task only: while A waits,
+// B's event is dropped and A's continues A's exception flow; while B waits it is the other way round; an interrupting
+// event at B ends B without normal flow, a non-interrupting one lets B's answer continue it.
+func boundaryTwoHosts(env *Env, rep *Report, key string, rounds int) {
+	for r := 0; r < rounds && !rep.Saturated(); r++ {
+		bFirst, intA, intB := r%2 == 0, r%4 >= 2 && r%3 == 0, r%3 != 1
+		p := &Prog{}
+		p.Node("start", "start")
+		p.Node("task", "A")
+		p.Node("task", "B")
+		p.Node("task", "N")
+		p.Node("end", "end")
+		p.Flow("start", "A", "")
+		p.Flow("A", "B", "")
+		p.Flow("B", "N", "")
+		p.Flow("N", "end", "")
+		decl := func(host string, interrupting bool) {
+			b := p.Node("boundary", "B"+host)
+			b.Attrs = fmt.Sprintf(`attachedToRef="%s" cancelActivity="%v"`, host, interrupting)
+			b.Inner = fmt.Sprintf(`<bpmn:signalEventDefinition id="bd%s" signalRef="s%s"/>`, host, host)
+		}
+		if bFirst {
+			decl("B", intB)
+			decl("A", intA)
+		} else {
+			decl("A", intA)
+			decl("B", intB)
+		}
+		for _, h := range []string{"A", "B"} {
+			p.Node("task", "X"+h)
+			p.Node("end", "xe"+h)
+			p.Flow("B"+h, "X"+h, "")
+			p.Flow("X"+h, "xe"+h, "")
+		}
+		xmlText := p.XML(`<bpmn:signal id="sA" name="sA"/><bpmn:signal id="sB" name="sB"/>`)
+		for inst := 1; inst <= 2 && !rep.Saturated(); inst++ {
+			cs := fmt.Sprintf("two tasks in sequence with one boundary event each (A's interrupting %v, B's interrupting %v, B's declared first %v), instance %d of one parsed document", intA, intB, bFirst, inst)
+			env.Current(cs)
+			defs, err := ParseDefsShared(xmlText)
+			must(err)
+			in, err := StartInst(defs, InstOpt{})
+			must(err)
+			rep.Evaluations++
+			rep.Nontrivial++
+			rep.Count("two_hosts")
+			problem := ""
+			xs := func(h string) int { return countEv(in.Log(), "task", "X"+h) }
+			host := func(h, other string, interrupting bool, next string) {
+				if problem != "" {
+					return
+				}
+				if !in.WaitUntil(tmoStep, func(l []Ev) bool { return countEv(l, "task", h) >= 1 && countEv(l, "listening", "B"+h) >= 1 }) {
+					problem = fmt.Sprintf("%s not requested with its boundary event listening", h)
+					return
+				}
+				a0, b0 := xs(h), xs(other)
+				in.Signal("s" + other)
+				in.Signal("s" + h)
+				if !in.WaitUntil(tmoStep, func(l []Ev) bool { return countEv(l, "task", "X"+h) > a0 }) {
+					problem = fmt.Sprintf("%s waits, its event delivered: the exception flow did not continue", h)
+					return
+				}
+				time.Sleep(settle)
+				if xs(h) != a0+1 || xs(other) != b0 {
+					problem = fmt.Sprintf("%s waits, one event of each kind delivered: exception flow of %s continued %d times (expected 1), of %s %d times (expected 0)", h, h, xs(h)-a0, other, xs(other)-b0)
+					return
+				}
+				n0 := countEv(in.Log(), "task", next)
+				if interrupting {
+					time.Sleep(settle)
+					if t := in.WaitTask(h, 5*time.Millisecond); t != nil {
+						t.Do()
+					}
+					time.Sleep(settle)
+					if n := countEv(in.Log(), "task", next); n != n0 {
+						problem = fmt.Sprintf("%s was interrupted, the normal flow continued to %s", h, next)
+					}
+				} else {
+					if !in.Answer(h, tmoStep) || !in.WaitUntil(tmoStep, func(l []Ev) bool { return countEv(l, "task", next) > n0 }) {
+						problem = fmt.Sprintf("%s answered, the normal flow did not continue to %s", h, next)
+					}
+				}
+			}
+			host("A", "B", intA, "B")
+			if !intA {
+				host("B", "A", intB, "N")
+				if problem == "" && !intB && !in.Answer("N", tmoStep) {
+					problem = "N not requested"
+				}
+			}
+			if problem == "" {
+				for _, h := range []string{"A", "B"} {
+					for in.Answer("X"+h, 30*time.Millisecond) {
+					}
+				}
+				if !in.WaitCease(tmoStep) {
+					problem = "all tasks answered, the instance did not complete"
+				}
+			}
+			if problem != "" {
+				rep.Violate(key, cs, problem+"; log: "+logString(in.Log()))
+			}
+			in.Close()
+		}
 	}
 }
